@@ -182,6 +182,18 @@ Theorem C18_aggregate_rational : forall tr : traj (F:=Qc),
 Proof. exact aggregate_Qc. Qed.
 Print Assumptions C18_aggregate_rational.
 
+(* the aggregates do not depend on the order in which the stations are listed (a consistent relabelling / re-ordering
+   of the rows of charging_rates together with the voltages, e.g. after a reload, leaves them unchanged) *)
+Theorem C18_aggregate_relabel_rational : forall tr tr' : traj (F:=Qc),
+  Forall (fun row => length row = t_width tr) (t_rates tr) ->
+  Forall (fun row => length row = t_width tr') (t_rates tr') ->
+  t_width tr = t_width tr' ->
+  Permutation (combine (t_volts tr) (t_rates tr)) (combine (t_volts tr') (t_rates tr')) ->
+  length (t_volts tr) = length (t_rates tr) -> length (t_volts tr') = length (t_rates tr') ->
+  aggregate_current QcO tr = aggregate_current QcO tr' /\ aggregate_power QcO QcA tr = aggregate_power QcO QcA tr'.
+Proof. exact aggregate_relabel_Qc. Qed.
+Print Assumptions C18_aggregate_relabel_rational.
+
 Theorem C18_constraint_currents_rational : forall (tr : traj (F:=Qc)) flag ids,
   wf tr -> NoDup (t_cindex tr) ->
   map fst (constraint_currents QcO QcA tr flag ids) = filter (requested ids) (t_cindex tr)
